@@ -41,6 +41,54 @@ class AbortAll(nfa.Spec):
         return st
 
 
+def list_holders(fx):
+    """[(adt, field)] through which the context owns its timer handles: Context.<field>, and — when that field is a crate-
+    local wrapper type around the Vec<AbortHandle> — the wrapper's own field(s) down to the Vec"""
+    out = []
+    adt = "context::Context"
+    for _ in range(4):
+        a = fx.adts.get(adt)
+        if a is None or len(a["variants"]) != 1:
+            break
+        nxt = None
+        for fl in a["variants"][0]["fields"]:
+            ty = fl["ty"]
+            if ABORT_HANDLE in ty and "alloc::vec::Vec<" in ty:
+                out.append((adt, fl["name"]))
+                return out
+            name = ty.split("<")[0]
+            inner = fx.adts.get(name)
+            if inner is not None and _owns_handles(fx, name, 0):
+                out.append((adt, fl["name"]))
+                nxt = name
+        if nxt is None:
+            break
+        adt = nxt
+    return out
+
+
+def _owns_handles(fx, adt, depth):
+    a = fx.adts.get(adt)
+    if a is None or depth > 3 or len(a["variants"]) != 1:
+        return False
+    for fl in a["variants"][0]["fields"]:
+        if ABORT_HANDLE in fl["ty"] and "alloc::vec::Vec<" in fl["ty"]:
+            return True
+        if _owns_handles(fx, fl["ty"].split("<")[0], depth + 1):
+            return True
+    return False
+
+
+def touches_list(fx, f, b):
+    """accesses of body b to the timer list: [(adt, field, bb, place)]"""
+    out = []
+    for adt, field in list_holders(fx):
+        for bi, _w, name, place in field_accesses(fx, f, b, adt):
+            if name == field:
+                out.append((adt, field, bi, place))
+    return out
+
+
 def aborters(ctx, fx):
     """functions that abort every handle of Context.tasks: {def: fn}"""
     out = {}
@@ -51,8 +99,7 @@ def aborters(ctx, fx):
             continue
         if not any(is_drain_handles(t) for _, t in b.normal_calls()):
             continue
-        touches = any(name == "tasks" for _bi, _w, name, _p in field_accesses(fx, f, b, "context::Context"))
-        if not touches:
+        if not touches_list(fx, f, b):
             continue
         n = nfa.build(b, A)
         viols, ps = nfa.check(n, AbortAll())
@@ -83,4 +130,44 @@ def timer_coroutines(fx):
         b = Body(f)
         if any(nfa.trait_method(T_SPAWNF, "sleep")(t) for _, t in b.normal_calls()):
             out.append(f)
+    return out
+
+
+class Creation:
+    """where a timer future comes into being: the function that builds the coroutine value — or, when the body is a named
+    async fn, each function that calls it — together with the operands it captures"""
+
+    def __init__(self, api, body, site, caps):
+        self.api = api      # fn record of the creating function
+        self.body = body    # its Body
+        self.site = site    # source location
+        self.caps = caps    # capture index of the coroutine -> operand in `body`
+
+
+def creations(fx, co):
+    out = []
+    parent = fx.fn(co.get("parent") or "")
+    if parent is None:
+        return out
+    pb = Body(parent)
+    for _bi, _si, st in agg_sites(pb, ak="coroutine"):
+        if st["r"]["def"] != co["def"]:
+            continue
+        ops = st["r"]["ops"]
+        if parent.get("is_async") and parent["kind"] in ("fn", "assoc_fn"):
+            # async fn: the coroutine captures the parameters; the future is created where the fn is called
+            argidx = {}
+            ok = True
+            for i, o in enumerate(ops):
+                os_ = pb.origins(o) if o.get("k") in ("move", "copy") else set()
+                if len(os_) == 1 and next(iter(os_)).kind == "arg" and not next(iter(os_)).proj:
+                    argidx[i] = next(iter(os_)).site
+                else:
+                    ok = False
+            if ok:
+                for g, bi, t in graph.all_calls(fx, lambda t: (t.get("resolved") or t.get("callee")) == parent["def"] or t.get("callee") == parent["def"]):
+                    gb = Body(g)
+                    out.append(Creation(g, gb, t["l"], {i: t["args"][k - 1] for i, k in argidx.items() if k - 1 < len(t["args"])}))
+                continue
+        out.append(Creation(parent, pb, st.get("l"), dict(enumerate(ops))))
     return out
